@@ -120,3 +120,15 @@ package ketoapi
 //@   modifies nothing
 //@   requires[C13] one-subject: onesubject(r)
 //@   ensures result != nil && fresh(result)
+
+// ---- C18: the human-readable form namespace:object#relation@subject.
+// Dom: the fields avoid the separators where they are significant.
+//@ spec noparens(s string) bool = len(s) == 0 || (s[0] != 40 && s[0] != 41 && s[len(s) - 1] != 40 && s[len(s) - 1] != 41)
+//@ spec domstr(x *RelationTuple) bool = onesubject(x) && nosep(x.Namespace, 58) && nosep(x.Object, 35) && nosep(x.Relation, 64)
+//@ spec domid(x *RelationTuple) bool = x.SubjectID != nil ==> nosep(*x.SubjectID, 58) && noparens(*x.SubjectID)
+
+//@ func verifRoundTripString
+//@   props C18
+//@   opt inline-all
+//@   requires domstr(x) && domid(x) && x.SubjectSet == nil
+//@   ensures[C18] string-roundtrip-subject-id: result1 == nil && result0 != nil && result0.Namespace == x.Namespace && result0.Object == x.Object && result0.Relation == x.Relation && sameid(result0.SubjectID, x.SubjectID) && result0.SubjectSet == nil
